@@ -1,0 +1,10 @@
+//go:build verif
+
+package hclwrite
+
+// Exports for the C11 verification harness in /verif (generated source reads
+// back as the value it was generated from). Compiled only with -tags verif;
+// adds no behaviour.
+
+// VerifEscapeQuotedStringLit exposes escapeQuotedStringLit.
+func VerifEscapeQuotedStringLit(s string) []byte { return escapeQuotedStringLit(s) }
